@@ -216,3 +216,189 @@ def check_C14(tier, seed):
     ctx.cov["traces_validated_against_impl"] += ctx.cov["evaluations"]
     ctx.cov["exhaustive"] = True
     return ctx.finish(rule="TextDisplay.tla: every string up to length %d over {LF, CR, TAB, ASCII letter, wide CJK char, 2-byte letter} + %d LF-rich strings of 5..9 lines; for every span (all boundary pairs) and every position the expected layout: which lines are numbered (number, pictured text), the '...' row, and the marker rows (character, first display cell, count); to_string() is run under catch_unwind and parsed into the same structure. evaluations = (string, span / position) pairs; non-trivial = strings longer than one character" % (L, len(extra)))
+
+
+def _bfs_from_pre(pre):
+    """level-order of a pre-order token list [[r,s,e,d]...] (python mirror used only for non-Dyck grammars)"""
+    kids = {}
+    stack = []
+    for i, t in enumerate(pre):
+        while stack and pre[stack[-1]][3] >= t[3]:
+            stack.pop()
+        if stack:
+            kids.setdefault(stack[-1], []).append(i)
+        stack.append(i)
+    out, level = [], [0] if pre else []
+    while level:
+        out += level
+        level = [k for n in level for k in kids.get(n, [])]
+    return [pre[i][:3] for i in out], kids
+
+
+def _render(pre, text):
+    kids = _bfs_from_pre(pre)[1]
+    lines = []
+    for i, (r, s, e, d) in enumerate(pre):
+        if kids.get(i):
+            lines.append("    " * d + r)
+        else:
+            lines.append("    " * d + r + " " + json.dumps(text.encode()[s:e].decode(), ensure_ascii=False))
+    return "".join(l + "\n" for l in lines)
+
+
+def check_C15(tier, seed):
+    import props, families
+    ctx = Ctx("C15", tier, seed)
+    N = 5 if tier == "quick" else 7
+    recs = tlc_text(ctx, "TreeWalk.tla", "TreeWalk.cfg", "c15", {"VERIF_MAXNODES": str(N)})
+    # (1) every ordered tree: the Dyck word is parsed by t = { "(" ~ t* ~ ")" } (and kind variants) and walked
+    dy = families.fam_dyck(tier)[0]
+    dy["inputs"] = [r["w"] for r in recs]
+    dy["entries"] = ["t", "n"]
+    dy["tree_rules"] = ["t", "n", "u", "v", "c", "top"]
+    dy["pair_rules"] = ["a"]
+    # (2) other grammars: the walk must enumerate exactly the model's pruned token tree
+    others = families.fam_ops(tier)[:: (6 if tier == "quick" else 2)] + families.fam_kinds(tier)[:: (20 if tier == "quick" else 4)] + families.fam_dyck_inputs(tier)
+    others[-1]["id"] = "dy1"
+    grams = [dy] + others
+    path, corpus = peg.make_corpus(grams, "c15")
+    for g, c in zip(grams, corpus):
+        if "tree_rules" not in g:
+            g["tree_rules"] = [n for n, k in c["kinds"].items() if k in ("normal", "compound", "nonatomic")]
+            g["pair_rules"] = [n for n, k in c["kinds"].items() if k == "atomic"]
+    rows = props.run_generic(ctx, "c15", grams, "sT", lambda rec, job, obs, gram: [], with_pest=False)
+    byw = {tuple(r["w"]): r for r in recs}
+    for rec, job, obs, gram in rows:
+        if not rec["ok"]:
+            continue
+        pair, tree = obs.get("pair"), obs.get("tree")
+        if pair is None:
+            continue     # silent rule: no Pair API
+        text = uncps(job["inp"])
+        exp_pre = [t for t in rec["ptoks"]]
+        d = []
+        if "panic" in pair or not pair.get("ok"):
+            d.append(("pair api", "a result", pair))
+        else:
+            if pair["token"] != exp_pre:
+                d.append(("as_token (pre-order flattening)", exp_pre, pair["token"]))
+            if pair["thin"] != exp_pre:
+                d.append(("as_thin_token", exp_pre, pair["thin"]))
+            kids = [t[:3] for t in exp_pre if t[3] == 1]
+            if pair["kids"] != kids:
+                d.append(("children()", kids, pair["kids"]))
+        if tree is not None and not d:
+            if "panic" in tree or not tree.get("ok"):
+                d.append(("tree api", "a result", tree))
+            else:
+                bfs, _ = _bfs_from_pre(exp_pre)
+                if tree["pre"] != exp_pre:
+                    d.append(("iterate_pre_order", exp_pre, tree["pre"]))
+                elif [t[:3] for t in tree["lvl"]] != bfs:
+                    d.append(("iterate_level_order", bfs, [t[:3] for t in tree["lvl"]]))
+                elif tree["render"] != _render(exp_pre, text):
+                    d.append(("format_as_tree", _render(exp_pre, text), tree["render"]))
+                elif not tree["iter_ok"] or tree["stop"] != [min(2, len(exp_pre)), len(exp_pre) >= 2]:
+                    d.append(("callback error must stop the walk", [min(2, len(exp_pre)), len(exp_pre) >= 2], tree["stop"]))
+                # Dyck trees: compare with TreeWalk's machines directly
+                tw = byw.get(tuple(job["inp"]))
+                if tw is not None and job["g"] == "dy0" and job["rule"] == "t" and not d:
+                    if [t[1:] for t in tree["pre"]] != tw["pre"]:
+                        d.append(("iterate_pre_order vs TreeWalk", tw["pre"], [t[1:] for t in tree["pre"]]))
+                    if [t[1:3] for t in tree["lvl"]] != tw["lvl"]:
+                        d.append(("iterate_level_order vs TreeWalk", tw["lvl"], [t[1:3] for t in tree["lvl"]]))
+                    if [t[1:3] for t in pair["kids"]] != tw["kids"]:
+                        d.append(("children vs TreeWalk", tw["kids"], [t[1:3] for t in pair["kids"]]))
+                    ctx.notes["dyck_trees_walked"] = ctx.notes.get("dyck_trees_walked", 0) + 1
+        if d:
+            f, e, o = d[0]
+            ctx.violation("%s: %s rule %s input %r: expected %s observed %s" % (f, gram["id"], job["rule"], text, json.dumps(e)[:140], json.dumps(o)[:140]),
+                          props.replay_of(rec, job, obs, gram, f, e, o))
+    ctx.cov["exhaustive"] = True
+    return ctx.finish(rule="TreeWalk.tla builds every ordered tree with at most %d nodes as a balanced word and runs the two-queue level-order and the stack-of-queues pre-order iterators step by step (all interleavings), checking visit order = BFS / DFS, each node once, nesting and sibling order; every such word is parsed with t = { \"(\" ~ t* ~ \")\" } (and a non-atomic variant) and children / as_token / as_thin_token / iterate_pre_order / iterate_level_order / format_as_tree / early stop on callback error are compared; for other grammars (operator and kind-chain families) the same helpers must enumerate exactly the model's pruned token tree" % N)
+
+
+def check_C11(tier, seed):
+    import props, families, illfam
+    ctx = Ctx("C11", tier, seed)
+    grams = illfam.fam_ill(tier, seed)
+    read = peg.pest_read(grams, "c11")
+    # errors raised while pest builds its AST (e.g. "cannot repeat 0 times") are not validator verdicts: leave those grammars out
+    VAL = ("cannot fail", "non-progressing", "cannot be reached", "left-recursive")
+    keep = [i for i, r in enumerate(read) if r["valid"] or all(any(v in e for v in VAL) for e in r["errors"])]
+    ctx.notes["grammars_dropped_(rejected_before_validation)"] = len(grams) - len(keep)
+    grams = [grams[i] for i in keep]
+    read = [read[i] for i in keep]
+    # renderer cross-check on every grammar pest accepts: python's JSON AST == pest_meta's source AST
+    for g, r in zip(grams, read):
+        if r.get("syntax_error"):
+            raise ToolError("family ill produced a syntactically invalid grammar: %s\n%s" % (g["text"], r["errors"]))
+        if r["valid"] and r["rules_src"] != g["rules"]:
+            raise ToolError("AST rendering differs from pest_meta's for %s:\n%s\n%s\n%s" % (g["id"], g["text"], json.dumps(g["rules"]), json.dumps(r["rules_src"])))
+    more = families.fam_rand(tier, seed, 6 if tier == "quick" else 40, "plain") + families.fam_rand(tier, seed, 4 if tier == "quick" else 30, "stack")
+    mread = peg.pest_read(more, "c11")
+    for g, r in zip(more, mread):
+        g["rules"] = r["rules_src"]
+    grams = grams + more
+    read = read + mread
+    d = peg.tmpdir("c11")
+    cp = os.path.join(d, "ill.json")
+    json.dump({"grammars": [{"id": g["id"], "rules": g["rules"]} for g in grams]}, open(cp, "w"))
+    recs, st = peg.run_tlc(cp, "c11", cfg="PegValidate.cfg", module="PegValidate.tla")
+    if not st["ok"]:
+        raise ToolError("TLC failed on PegValidate:\n" + st.get("tail", "")[-3000:])
+    ctx.add_stats(st)
+    verdict = {r["id"]: r for r in recs}
+    drift = [(g, r) for g, r in zip(grams, read) if verdict[g["id"]]["rejected"] == r["valid"]]
+    if drift:
+        g, r = drift[0]
+        raise ToolError("SPEC-DRIFT: PegValidate says rejected=%s but pest_meta says valid=%s (%d grammars), e.g.\n%s\n%s\n%s" % (
+            verdict[g["id"]]["rejected"], r["valid"], len(drift), g["text"], verdict[g["id"]]["reasons"], r["errors"]))
+    ctx.notes["pest_meta_agrees_with_PegValidate_on"] = len(grams)
+    ctx.notes["rejected_by_model"] = sum(1 for r in recs if r["rejected"])
+    ctx.notes["accepted_not_wellfounded"] = sum(1 for r in recs if not r["rejected"] and not r["wellfounded"])
+    # (i) the generator, called as a library, must panic exactly on the rejected grammars (both AST paths)
+    famgen.sync_workspace()
+    p, genbin = build_bin("genrun")
+    if p.returncode != 0:
+        raise ToolError("genrun build failed:\n" + (p.stdout or "")[-3000:])
+    for opts in ({}, {"pest_optimizer": False}):
+        jobs = [{"idx": i, "text": g["text"], "opts": opts} for i, g in enumerate(grams)]
+        obs = run_text(genbin, jobs, procs=8)
+        for i, g in enumerate(grams):
+            o = obs.get(i)
+            ctx.cov["evaluations"] += 1
+            v = verdict[g["id"]]
+            if v["rejected"]:
+                ctx.cov["distinct_nontrivial"] += 1
+            if o is None or o["panic"] != v["rejected"]:
+                ctx.violation("generator %s a grammar the validator %s (%s; options %s): %s" % (
+                    "accepted" if v["rejected"] else "refused", "rejects" if v["rejected"] else "accepts",
+                    [x for x in v["reasons"] if x["why"]], opts, g["text"].replace("\n", " ; ")),
+                    {"kind": "generator", "grammar": g["text"], "opts": opts, "model": v, "observed": o})
+        if len(ctx.cov["samples"]) < 3:
+            k = next(i for i, g in enumerate(grams) if verdict[g["id"]]["rejected"])
+            ctx.cov["samples"].append({"grammar": grams[k]["text"], "model_verdict": verdict[grams[k]["id"]], "generator": obs.get(k)})
+    # (ii)+(iii) accepted and well-founded grammars: compile, and every parse of every input returns.
+    wf = [g for g in grams if verdict[g["id"]]["wellfounded"]]
+    rnd = random.Random(seed)
+    rnd.shuffle(wf)
+    wf = wf[: (40 if tier == "quick" else 300)]
+    for g in wf:
+        g.setdefault("alphabet", cps("ab1 #"))
+        g["maxlen"] = 3 if tier == "quick" else 4
+    allg = wf
+    path, corpus = peg.make_corpus(allg, "c11")
+    _, st = peg.run_tlc(path, "c11", cfg="MC_Peg_live.cfg", emit="none", workers=8)
+    if not st["ok"]:
+        raise ToolError("TLC liveness run (M10: well-founded grammars terminate) failed:\n" + st.get("tail", "")[-3000:])
+    ctx.add_stats(st)
+    ctx.notes["liveness_states"] = st.get("states")
+
+    def cmp_term(rec, job, obs, gram):
+        if obs.get("timeout") or obs.get("crash") is not None or obs.get("missing"):
+            return [("parse does not return", "returns", obs)]
+        return []      # verdicts are C01's business; here only that the call returns
+    rows = props.run_generic(ctx, "c11", allg, "s", cmp_term, with_pest=False)
+    ctx.notes["wellfounded_grammars_run"] = len(allg)
+    return ctx.finish(rule="PegValidate.tla (pest's validate_ast transcribed: non-failing / non-progressing repetition bodies, unreachable alternatives, WHITESPACE/COMMENT, left recursion) gives a verdict for every grammar of family ill (hand-written ill-formed grammars and near-misses + seeded mutations of random grammars); pest_meta is its witness; pest_typed_generator::derive_typed_parser is called as a library under catch_unwind with and without pest_optimizer and must panic exactly on the rejected ones (evaluations; non-trivial = rejected grammars). Accepted well-founded grammars are compiled (harness build) and TLC checks <>(pc = done) under weak fairness on every (rule, input) (M10) while the real parser runs each under a watchdog.")
